@@ -2,9 +2,11 @@
 C28 — executable model of the reentrant lock wrappers (M-Lock).  Core Lean only.
 
 * `Phys`   — the abstract *physical* lock the wrappers drive: a recording lock
-  that never refuses `lock_read()` / `unlock()` (so that a wrapper that
-  acquired twice or released a lock it does not hold shows up in `log`, which
-  is what the theorems are about) and has the token behaviour of
+  that never refuses `unlock()`, and refuses `lock_read()` only when its
+  environment flag `rblock` is set (a contended OS read lock:
+  `LockContention`), so that a wrapper that acquired twice or released a lock
+  it does not hold shows up in `log`, which is what the theorems are about;
+  it has the token behaviour of
   `breezy.lockdir.LockDir`: write locks have a nonce on disk,
   `lock_write(None)` fails with `LockContention` when a lock exists on disk,
   `lock_write(token)` / `validate_token(token)` fail with `TokenMismatch`
@@ -22,6 +24,12 @@ C28 — executable model of the reentrant lock wrappers (M-Lock).  Core Lean onl
   groups are not modelled (`_write_group is None` throughout).
 * `Branch` — `breezy/bzr/branch.py: BzrBranch.lock_write / lock_read / unlock`
   over its control files and a `Repo`.
+
+* `Tree`   — the bzr working trees (`workingtree_4.py`, `workingtree.py`,
+  `workingtree_3.py`) over `Branch.stepG`.
+* `RepoW`  — `PackRepository` with `start_write_group` / `abort_write_group` and the
+  write-group branch of `unlock`;  `BranchS` — `BzrBranch.unlock` with a config
+  store whose `save_changes()` raises.
 
 Each method is a total function `state → state × Res`; the exceptions the real
 code raises are the `Err` values, and the state returned with an error is the
@@ -47,6 +55,8 @@ inductive Err where
   | tokenMismatch   -- errors.TokenMismatch
   | contention      -- errors.LockContention
   | lockError       -- errors.LockError (transaction slot misuse)
+  | notWriteLocked  -- errors.NotWriteLocked (start_write_group without a write lock)
+  | bzrError        -- errors.BzrError (write group misuse)
   deriving DecidableEq, Repr
 
 /-- result of one method call: returned token (`none` = Python `None`) or the
@@ -70,13 +80,17 @@ structure Phys where
   viaTok : Bool := false
   disk : Option Nat := none
   log : List Ev := []
+  /-- environment: `lock_read()` is refused with `LockContention` (never changed by the wrappers) -/
+  rblock : Bool := false
   deriving DecidableEq, Repr
 
 namespace Phys
 
-/-- `lock_read()`: recorded, never refused -/
-def lockRead (p : Phys) : Phys :=
-  { p with held := some .r, log := p.log ++ [.acqR] }
+/-- `lock_read()`: recorded; refused (`LockContention`, nothing recorded) exactly
+when the environment flag `rblock` is set -/
+def lockRead (p : Phys) : Except Err Phys :=
+  if p.rblock then .error .contention
+  else .ok { p with held := some .r, log := p.log ++ [.acqR] }
 
 def validate (p : Phys) : Option Nat → Except Err Unit
   | none => .ok ()
@@ -99,9 +113,9 @@ def lockWrite (p : Phys) (tok : Option Nat) : Except Err (Phys × Option Nat) :=
 /-- `unlock()`: recorded, never refused; a lock this object created on disk is
 removed, an adopted one is left in place -/
 def unlock (p : Phys) : Phys :=
-  { held := none, viaTok := false,
-    disk := if p.held = some .w && !p.viaTok then none else p.disk,
-    log := p.log ++ [.rel] }
+  { p with held := none, viaTok := false,
+           disk := if p.held = some .w && !p.viaTok then none else p.disk,
+           log := p.log ++ [.rel] }
 
 end Phys
 
@@ -120,7 +134,9 @@ def isLocked (s : CL) : Bool := s.mode.isSome
 
 def lockRead (s : CL) : CL × Res :=
   if s.mode.isSome then ({ s with count := s.count + 1 }, .ok none)
-  else ({ s with phys := s.phys.lockRead, count := 1, mode := some .r }, .ok none)
+  else match s.phys.lockRead with
+    | .error e => (s, .error e)          -- `_real_lock.lock_read()` raised: nothing assigned yet
+    | .ok p => ({ s with phys := p, count := 1, mode := some .r }, .ok none)
 
 def lockWrite (s : CL) (tok : Option Nat) : CL × Res :=
   if s.count = 0 then
@@ -174,10 +190,12 @@ def lockWrite (s : LF) (tok : Option Nat) : LF × Res :=
 
 def lockRead (s : LF) : LF × Res :=
   if s.mode.isSome then ({ s with count := s.count + 1 }, .ok none)
-  else
-    let s1 := { s with phys := s.phys.lockRead, mode := some .r, count := 1 }
-    if s1.txn.isSome then (s1, .error .lockError)
-    else ({ s1 with txn := some .r }, .ok none)
+  else match s.phys.lockRead with
+    | .error e => (s, .error e)          -- `_lock.lock_read()` raised: nothing assigned yet
+    | .ok p =>
+      let s1 := { s with phys := p, mode := some .r, count := 1 }
+      if s1.txn.isSome then (s1, .error .lockError)
+      else ({ s1 with txn := some .r }, .ok none)
 
 /-- `unlock`, with `@only_raises(LockNotHeld, LockBroken)`: a `LockError` from
 `_finish_transaction` is logged and discarded (the call returns `None`) -/
@@ -347,12 +365,182 @@ def LF.run (s : LF) (ops : List Op) : LF := ops.foldl (fun s o => (s.step o).1) 
 def Repo.run (s : Repo) (ops : List Op) : Repo := ops.foldl (fun s o => (s.step o).1) s
 def Branch.run (s : Branch) (ops : List SOp) : Branch := ops.foldl (fun s o => (s.step o).1) s
 
+/-! ### PackRepository with write groups (`start_write_group`, `abort_write_group`, and the
+write-group branch of `PackRepository.unlock`)
+
+`unlock` of the last write lock while a write group is active aborts the group, sets
+`_write_lock_count = 0` and raises `BzrError("Must end write group ...")`, which
+`@only_raises(LockNotHeld, LockBroken)` logs and discards: the call returns `None`.  The
+code as found leaves through that `raise` before the `if not self.is_locked():` block, so
+the fallback repositories stay locked (`fx = false`); `fx = true` is the proposed fix
+(unlock the fallbacks before raising). -/
+
+inductive WOp where
+  | op (o : Op)
+  | startWG        -- start_write_group()
+  | abortWG        -- abort_write_group()
+  deriving DecidableEq, Repr
+
+structure RepoW where
+  repo : Repo := {}
+  wg : Bool := false       -- `_write_group is not None`
+  deriving DecidableEq, Repr
+
+namespace RepoW
+
+def unlock (fx : Bool) (s : RepoW) : RepoW × Res :=
+  if s.repo.wcount = 1 && s.wg then
+    let r := { s.repo with wcount := 0 }
+    let r := if fx && !r.isLocked then { r with fb := r.fb - 1, fbLog := r.fbLog ++ [.rel] } else r
+    ({ repo := r, wg := false }, .ok none)
+  else
+    let (r, res) := s.repo.unlock
+    ({ s with repo := r }, res)
+
+def step (fx : Bool) (s : RepoW) : WOp → RepoW × Res
+  | .op .unlock => s.unlock fx
+  | .op o => let (r, res) := s.repo.step o; ({ s with repo := r }, res)
+  | .startWG =>
+    if s.repo.wcount = 0 then (s, .error .notWriteLocked)
+    else if s.wg then (s, .error .bzrError)
+    else ({ s with wg := true }, .ok none)
+  | .abortWG =>
+    -- `_write_group is not get_transaction()`: outside a group `None` is never the transaction
+    if !s.wg then (s, .error .bzrError) else ({ s with wg := false }, .ok none)
+
+def run (fx : Bool) (s : RepoW) (ops : List WOp) : RepoW := ops.foldl (fun s o => (s.step fx o).1) s
+
+end RepoW
+
+/-! ### BzrBranch.unlock with a config store whose `save_changes()` raises
+
+`BzrBranch.unlock` (guarded) runs `if control_files._lock_count == 1 and conf_store is
+not None: conf_store.save_changes()` BEFORE the `try: control_files.unlock() finally:
+...`.  If it raises (disk full, permission denied, ...), `@only_raises` logs and discards
+the exception: the call returns `None` with nothing released (`fx = false`, the code as
+found).  `fx = true` is the proposed fix (save inside the `try`, so that the locks are
+released in the `finally:`; the exception is still discarded). -/
+
+structure BranchS where
+  b : Branch := {}
+  saveFails : Bool := false     -- environment: `conf_store.save_changes()` raises
+  deriving DecidableEq, Repr
+
+def BranchS.step (fx : Bool) (s : BranchS) : SOp → BranchS × Res
+  | .branch .unlock =>
+    if !s.b.isLocked then (s, .error .notHeld)
+    else if s.b.cf.count = 1 && s.saveFails && !fx then (s, .ok none)
+    else let (b, r) := s.b.unlock; ({ s with b := b }, r)
+  | o => let (b, r) := s.b.stepG o; ({ s with b := b }, r)
+
+def BranchS.run (fx : Bool) (s : BranchS) (ops : List SOp) : BranchS :=
+  ops.foldl (fun s o => (s.step fx o).1) s
+
+/-! ### bzr working trees (`breezy/bzr/workingtree_4.py: DirStateWorkingTree`,
+`breezy/bzr/workingtree.py: InventoryWorkingTree` + `workingtree_3.py: WorkingTree3.unlock`)
+
+Both families have the same lock skeleton: EVERY `lock_read` / `lock_tree_write`
+/ `lock_write` first locks the branch (`branch.lock_read()`, `lock_read()`,
+`lock_write()` respectively), then the tree's own control files, and gives the
+branch lock back if the latter raises; every `unlock` runs
+`try: return self._control_files.unlock() finally: self.branch.unlock()`.
+The branch underneath is the guarded `Branch.stepG` (the code in /repo).  The
+dirstate file lock and the cache flushing of the last unlock are not modelled. -/
+
+structure Tree where
+  cf : LF := {}              -- the tree's own `_control_files`
+  branch : Branch := {}
+  deriving DecidableEq, Repr
+
+inductive TreeOp where
+  | lockRead
+  | lockTreeWrite
+  | lockWrite
+  | unlock
+  deriving DecidableEq, Repr
+
+/-- an operation on the tree / branch / repository stack -/
+inductive TOp where
+  | tree (o : TreeOp)
+  | branch (o : Op)
+  | repo (o : Op)
+  deriving DecidableEq, Repr
+
+namespace Tree
+
+def isLocked (s : Tree) : Bool := s.cf.isLocked
+
+/-- `try: self._control_files.lock_*() except: self.branch.unlock(); raise`
+(the branch has just been locked); a tree lock returns a `LogicalLockResult`
+(no token) -/
+def lockSelf (s : Tree) (r : LF × Res) : Tree × Res :=
+  match r with
+  | (cf, .ok _) => ({ s with cf := cf }, .ok none)
+  | (cf, .error e) =>
+    let s1 := { s with cf := cf }
+    match s1.branch.stepG (.branch .unlock) with
+    | (b, .ok _) => ({ s1 with branch := b }, .error e)
+    | (b, .error e') => ({ s1 with branch := b }, .error e')
+
+/-- `branchOp` = how the branch is locked first; `self` = how the tree's own
+control files are locked then -/
+def lockVia (s : Tree) (branchOp : Op) (self : LF → LF × Res) : Tree × Res :=
+  match s.branch.stepG (.branch branchOp) with
+  | (b, .error e) => ({ s with branch := b }, .error e)
+  | (b, .ok _) =>
+    let s1 := { s with branch := b }
+    lockSelf s1 (self s1.cf)
+
+def lockRead (s : Tree) : Tree × Res := lockVia s .lockRead LF.lockRead
+def lockTreeWrite (s : Tree) : Tree × Res := lockVia s .lockRead (fun cf => cf.lockWrite none)
+def lockWrite (s : Tree) : Tree × Res := lockVia s (.lockWrite none) (fun cf => cf.lockWrite none)
+
+/-- `unlock` as in /repo: `try: return cf.unlock() finally: branch.unlock()` — an
+exception of `branch.unlock()` replaces the pending one -/
+def unlock (s : Tree) : Tree × Res :=
+  match s.cf.unlock with
+  | (cf, r) =>
+    let s1 := { s with cf := cf }
+    match s1.branch.stepG (.branch .unlock) with
+    | (b, .error e') => ({ s1 with branch := b }, .error e')
+    | (b, .ok _) => ({ s1 with branch := b }, r)
+
+/-- the stack as in /repo (tree `unlock` unguarded: known finding
+`tree-over-unlock-releases-branch`) -/
+def step (s : Tree) : TOp → Tree × Res
+  | .tree .lockRead => s.lockRead
+  | .tree .lockTreeWrite => s.lockTreeWrite
+  | .tree .lockWrite => s.lockWrite
+  | .tree .unlock => s.unlock
+  | .branch o => let (b, res) := s.branch.stepG (.branch o); ({ s with branch := b }, res)
+  | .repo o => let (b, res) := s.branch.stepG (.repo o); ({ s with branch := b }, res)
+
+/-- the same with the guard `GitWorkingTree.unlock` has (and `BzrBranch.unlock`
+got): `if not self._control_files.is_locked(): return cant_unlock_not_held(self)` first -/
+def stepG (s : Tree) : TOp → Tree × Res
+  | .tree .unlock => if !s.isLocked then (s, .error .notHeld) else s.unlock
+  | o => s.step o
+
+def run (s : Tree) (ops : List TOp) : Tree := ops.foldl (fun s o => (s.step o).1) s
+def runG (s : Tree) (ops : List TOp) : Tree := ops.foldl (fun s o => (s.stepG o).1) s
+
+end Tree
+
 /-- initial states; `ext = true`: a write lock with nonce `nonce` already
 exists on disk (taken by other means), so `lock_write(nonce)` can adopt it -/
-def Phys.init (ext : Bool) : Phys := { disk := if ext then some nonce else none }
-def CL.init (ext : Bool) : CL := { phys := Phys.init ext }
-def LF.init (ext : Bool) : LF := { phys := Phys.init ext }
-def Repo.init (ext : Bool) : Repo := { cf := LF.init ext }
-def Branch.init (ext : Bool) : Branch := { cf := LF.init ext, repo := Repo.init ext }
+def Phys.init (ext : Bool) (rb : Bool := false) : Phys :=
+  { disk := if ext then some nonce else none, rblock := rb }
+/-- `rb`: the object's own physical lock refuses `lock_read()` -/
+def CL.init (ext : Bool) (rb : Bool := false) : CL := { phys := Phys.init ext rb }
+def LF.init (ext : Bool) (rb : Bool := false) : LF := { phys := Phys.init ext rb }
+def Repo.init (ext : Bool) (rb : Bool := false) : Repo := { cf := LF.init ext rb }
+/-- `rbB` / `rbR`: the branch's / the repository's control-files lock refuses `lock_read()` -/
+def Branch.init (ext : Bool) (rbB : Bool := false) (rbR : Bool := false) : Branch :=
+  { cf := LF.init ext rbB, repo := Repo.init ext rbR }
+def RepoW.init (ext : Bool) (rb : Bool := false) : RepoW := { repo := Repo.init ext rb }
+def BranchS.init (ext : Bool) (saveFails : Bool) : BranchS := { b := Branch.init ext, saveFails := saveFails }
+/-- `rbT`: the tree's own control-files lock refuses `lock_read()` -/
+def Tree.init (ext : Bool) (rbT : Bool := false) (rbB : Bool := false) (rbR : Bool := false) : Tree :=
+  { cf := LF.init ext rbT, branch := Branch.init ext rbB rbR }
 
 end BreezyVerif.C28
